@@ -260,8 +260,6 @@ package cluster_info
 //@ func getDefaultPriority
 //@   props C10
 //@   requires dataLister != nil
-//@   modifies *
-//@   note modifies *: the error path wraps the error with github.com/pkg/errors.WithStack (external, havoc)
 //@   loop 1
 //@     invariant 0 - 1 <= rangeindex && rangeindex < len(priorityClasses)
 //@     invariant forall i int :: 0 <= i && i < len(priorityClasses) ==> priorityClasses[i] != nil
@@ -450,3 +448,59 @@ package cluster_info
 //@   ensures [noPodsNothingUsed] err == nil ==> snapNodeEmpty(nodesMap)
 //@   ensures [layout] resource_info.vmWF(vectorMap)
 //@ end
+
+// ---- C12 / C14 / C01: putting the tasks on their nodes ---------------------------------------------------------------
+// (*ClusterInfo).addTasksToNodes and (*ClusterInfo).Snapshot are NOT under contract.  addTasksToNodes hands the lists
+// of getNodeToPodInfosMap to node.AddTasksToNode(list of node.Name, ...); the precondition of that call (and of
+// node_info.AddTask below it) is node_info.nodeWF(node), which contains
+//   (1) vecWF: len(node.IdleVector) == len(node.VectorMap.resourceNames) (same for Used/Releasing), and
+//   (2) node.MemoryOfEveryGpuOnNode > 0.
+// Neither can be established by the snapshot for every API state: (1) all nodes share ONE layout (vectorMap) that
+// grows after a node was built - by the allocatable of every later node (snapshotNodes) and by the requests of every
+// pod (getNodeToPodInfosMap) - so an earlier node's vectors are shorter than the layout as soon as a later node or a
+// pod names a resource the layout did not have (e.g. node A {cpu,memory,pods}, node B {cpu,memory,pods,example.com/foo}:
+// len(A.IdleVector) = 4, layout = 5).  The code is fine with that (ResourceVector.Add/Sub extend, Get/Set are bounds
+// checked); the CONTRACT of AddTask (owner: node helper) is stronger than what its only production caller provides.
+// (2) is finding F1 (label nvidia.com/gpu.memory in [0,99] or negative; see NewNodeInfo [gpuMemory]).
+// What IS proved of this step: the three pieces it composes - getNodeToPodInfosMap (tasks built from the live bind
+// request and listed under their node), AddTasksToNode (occupying pods recorded, exact effect for 0/1 pods) and
+// snapshotNodes (nodes keyed by name, empty) - and, by reading the eight lines of addTasksToNodes, that each node gets
+// exactly the two lists stored under ITS name and that lists under other names ("" or a node that is not in the
+// snapshot) are handed to no node.
+
+// ---- C14 / C10: the jobs of the snapshot ------------------------------------------------------------------------------
+//@ func github.com/pkg/errors.WithStack
+//@   props C10
+//@   trusted
+//@   note external (github.com/pkg/errors): wraps the error with a stack trace; assumed read-only, non-nil for a non-nil argument
+//@   pure
+//@   ensures (result == nil) == (arg0 == nil)
+//@ end
+
+// C14 "pods present ... each workload": the task of a pod is the ONE registered under the pod's UID by the node pass
+// (addTasksToNodes), so the job and the node see the same object; a pod that was not registered (its node is not in
+// the snapshot) gets a new task without bind request and is registered now.  Either way the result is the registered task.
+//@ func (*ClusterInfo).getPodInfo
+//@   props C14 C10
+//@   requires pod != nil && existingPods != nil && vectorMap != nil
+//@   requires forall u in existingPods :: existingPods[u] != nil
+//@   modifies existingPods[pod.UID]
+//@   ensures [registered] pod.UID in existingPods && existingPods[pod.UID] == result && result != nil
+//@   ensures [reused] old(pod.UID in existingPods) ==> result == old(existingPods[pod.UID])
+//@   ensures [newWithoutRequest] !old(pod.UID in existingPods) ==> fresh(result) && result.Pod == pod && result.BindRequest == nil && result.Status == pod_info.taskStatusOf(pod, false) && result.NodeName == pod.Spec.NodeName
+//@   ensures [registryNonNil] forall u in existingPods :: existingPods[u] != nil
+//@ end
+
+//@ func (*ClusterInfo).setPodGroupPriorityAndPreemptibility
+//@   props C10
+//@   requires ciWF(c) && podGroupInfo != nil && podGroup != nil
+//@   modifies podGroupInfo.Priority, podGroupInfo.Preemptibility
+//@ end
+
+// snapshotPodGroups is not under contract: after (*PodGroupInfo).SetPodGroup (which replaces the pod sets) the
+// preconditions of (*PodGroupInfo).AddTaskInfo (idxWF / allPsWF / accOK of the job helper's file) are not re-established
+// by any contract, NewPodGroupInfoWithVectorMap and AddSimpleJobFitError have no contract, and accOK compares vector
+// lengths under the growing layout (see the note on addTasksToNodes).  Its no-panic obligations that do not depend on
+// those: ListPodByIndex returns non-nil *v1.Pod elements (assumed, data_lister), so the unchecked `pod, ok :=
+// rawPod.(*v1.Pod)` followed by getPodInfo(pod) does not dereference nil; GetPriorityClassByName returns a non-nil
+// class when err == nil (assumed); isPodGroupUpForScheduler needs c.nodePoolParams != nil (ciWF, established by New).
